@@ -358,6 +358,25 @@ def add_null(rng, x):
     return x
 
 
+def gen_plain(rng, elide=False):
+    """commodity-less amounts written with different numbers of decimals (what is displayed for them is their own
+    precision, which addition must take as the larger of the two whatever the order), exactly balanced or with the
+    balancing amount elided, sometimes beside a commoditized pair that cancels"""
+    k = rng.choice([2, 3, 3, 4])
+    decs = [rng.choice([0, 1, 2, 3, 5]) for _ in range(k)]
+    vals = [F(rng.randrange(-99999, 99999), 10 ** d) for d in decs[:-1]]
+    posts = [Post(acct_of(rng, 'R'), 'R', Amt(v, d, None)) for v, d in zip(vals, decs)]
+    if elide:
+        posts.append(Post('Null:' + acct_of(rng, 'R'), 'R', None))
+    else:
+        posts.append(Post(acct_of(rng, 'R'), 'R', Amt(-sum(vals), max(decs[:-1]), None)))
+    if rng.random() < 0.3:
+        a = Amt.rand(rng, rng.choice(list(COMMS)))
+        posts += [Post(acct_of(rng, 'R'), 'R', a), Post(acct_of(rng, 'R'), 'R', a.neg())]
+    rng.shuffle(posts)
+    return Xact(posts)
+
+
 # ---------------------------------------------------------------------------- correspondence
 def model_lines_to_map(lines):
     m = {}
